@@ -67,7 +67,7 @@ def main():
         m = re.search(r'(\d+) passed', outt)
         report['pytest_passed'] = int(m.group(1)) if m else None
         verdicts = {}
-        env = dict(os.environ, VERIF_REPO=wt)
+        env = dict(os.environ, VERIF_REPO=wt, VERIF_VARIANT='1')
         for pid in checks:
             rc, out = sh([os.path.join(VERIF, 'check'), pid], cwd=VERIF, env=env, timeout=900)
             lines = [l for l in out.splitlines() if l.startswith('VIOLATION') or l.startswith('ANALYSIS-ERROR')]
